@@ -73,9 +73,9 @@ def run(ctx):
     crashed = [n for n, v in ref.items() if v[0] == "crashed"]
     if crashed:
         raise core.MachineryError(f"reference run crashed for {crashed[:5]}")
-    # wall clock / randomness: a second set of pristine processes with the date shifted by 400 days and other seeds
+    # wall clock / randomness: a second set of pristine processes with the date shifted by 14 000 days (38 years, so that two-digit years straddle any window around 'today') and other seeds
     with ThreadPoolExecutor(core.NCPU) as ex:
-        outs2 = list(ex.map(lambda a: runner(ctx, "ref", a[1], f"clk{a[0]}", offset=400, seed=99, full=True), enumerate(parts)))
+        outs2 = list(ex.map(lambda a: runner(ctx, "ref", a[1], f"clk{a[0]}", offset=14000, seed=99, full=True), enumerate(parts)))
     with ThreadPoolExecutor(core.NCPU) as ex:
         outs1 = list(ex.map(lambda a: runner(ctx, "ref", a[1], f"full{a[0]}", full=True), enumerate(parts)))
     shifted, plain = {}, {}
